@@ -220,6 +220,9 @@ def _collect(ctx, path, g, text, res):
             if res.status in ('error', 'timeout'):
                 o.status = 'undecided'
                 o.detail = 'verus status=%s\n%s' % (res.status, '\n'.join(e['text'] for e in res.errors[:6]) or res.raw_err[-2000:])
+                # which function the compiler / Verus front end complained about (the file is rejected as a whole)
+                culprits = set(k for k in by_fn if k[0] == modname)
+                o.culprit = (not culprits) or ((modname, ident) in culprits)
             elif ent is None:
                 o.status = 'undecided'
                 o.detail = 'function not reported by verus (no obligation generated?)'
